@@ -186,8 +186,14 @@ func (c *Config) handleSvcConfigUpdate(svcName string, newCfg *service.Config) {
 	if sw.Endpoints == nil {
 		return
 	}
-	switch oldCfg {
-	case nil:
+	switch {
+	case oldCfg == nil:
+		c.emitSvcAddEvent(sw)
+	case oldCfg.Validate() != nil:
+		// No processor could be created from the invalid old config (or it
+		// still runs with an even older one), announce the service again
+		// in addition to the config change.
+		c.emitSvcConfigEvent(svcName, newCfg)
 		c.emitSvcAddEvent(sw)
 	default:
 		c.emitSvcConfigEvent(svcName, newCfg)
